@@ -61,6 +61,8 @@ def apply(m, kind, op):
     """Apply one operation (name, view, arg). Raises if the module refuses it."""
     import jax.numpy as jnp
     name, v, arg = op
+    if name in ("connect", "record_syn", "set_syn", "make_trainable_syn"):
+        return apply_edge_op(m, kind, op)
     V = view(m, kind, v)
     if name == "insert": V.insert(channel(arg))
     elif name == "delete_channel": V.delete_channel(channel(arg))
@@ -76,8 +78,40 @@ def apply(m, kind, op):
     elif name == "delete_trainables": V.delete_trainables()
     elif name == "init_states": m.init_states()
     elif name == "set_ncomp": V.set_ncomp(arg)
+    elif name in ("connect", "record_syn", "set_syn", "make_trainable_syn"):
+        raise KeyError(name)       # handled before the view is built (edge operations)
     else: raise KeyError(name)
 
+
+def synapse(name):
+    from jaxley.synapses import IonotropicSynapse, TestSynapse, TanhRateSynapse
+    return {"IonotropicSynapse": IonotropicSynapse, "TestSynapse": TestSynapse, "TanhRateSynapse": TanhRateSynapse}[name]()
+
+
+def apply_edge_op(m, kind, op):
+    """connect / record / set / make_trainable on synapses (networks only; a cell refuses)."""
+    from jaxley.connect import connect
+    name, v, arg = op
+    if kind == "cell":
+        raise TypeError("edge operation on a cell")
+    if name == "connect":
+        ends = {"fwd": (m.cell(0).branch(1).comp(1), m.cell(1).branch(0).comp(0)), "bwd": (m.cell(1).branch(1).comp(0), m.cell(0).branch(0).comp(0)),
+                "fan": (m.cell(0).branch(1).comp(0), m.cell(1).branch(1).comp(0))}[v]
+        connect(ends[0], ends[1], synapse(arg)); return
+    idx = {"first": 0, "last": len(m.edges) - 1}[v]
+    typ = str(m.edges.loc[idx, "type"])
+    syn = [s_ for s_ in m.synapses if s_._name == typ][0]
+    if name == "record_syn":
+        key = f"i_{typ}" if arg == "i" else list(syn.synapse_states)[0]      # IndexError (refused) for state-less synapses
+        m.select(edges=[idx]).record(key, verbose=False)
+    elif name == "set_syn":
+        m.select(edges=[idx]).set(list(syn.synapse_params)[0], 7.5e-4)
+    elif name == "make_trainable_syn":
+        m.select(edges=[idx]).make_trainable(list(syn.synapse_params)[0], verbose=False)
+
+
+EDGE_OPS = [("connect", "fwd", "IonotropicSynapse"), ("connect", "bwd", "TestSynapse"), ("connect", "fan", "TanhRateSynapse"), ("connect", "fan", "IonotropicSynapse"),
+            ("record_syn", "last", "i"), ("record_syn", "last", "state"), ("record_syn", "first", "i"), ("set_syn", "last", None), ("make_trainable_syn", "last", None)]
 
 ALPHABET = [
     ("insert", "all", "HH"), ("insert", "b0", "K"), ("insert", "b2c1", "Na"), ("insert", "all", "Na"),
@@ -129,7 +163,17 @@ def table_problems(m):
         if c in ("HH", "K", "Na", "Km", "Leak") and c not in names: P.append(f"flag column {c} without channel object")
     if len(m.recordings):
         for st, idx in zip(m.recordings.state, m.recordings.rec_index):
-            if not (0 <= int(idx) < n): P.append(f"recording of {st} refers to missing row {idx}")
+            lim = len(m.edges) if _is_edge_state(m, st) else n
+            if not (0 <= int(idx) < lim): P.append(f"recording of {st} refers to missing row {idx}")
+    if len(m.edges):
+        if list(m.edges.index) != list(range(len(m.edges))) or ("global_edge_index" in m.edges.columns and list(m.edges["global_edge_index"]) != list(range(len(m.edges)))):
+            P.append("edge indices not contiguous")
+        for s_ in m.synapses:
+            rows = (m.edges["type"] == s_._name).to_numpy()
+            for k in list(s_.synapse_params) + list(s_.synapse_states):
+                if k not in m.edges.columns: P.append(f"column {k} of synapse {s_._name} missing"); continue
+                if np.any(rows & m.edges[k].isna().to_numpy()): P.append(f"{k} is NaN on an edge of type {s_._name}")
+        if set(m.edges["type"]) != set(s_._name for s_ in m.synapses): P.append("synapse objects and edge types differ")
     for k, inds in m.external_inds.items():
         if np.any(np.asarray(inds) >= n) or np.any(np.asarray(inds) < 0): P.append(f"external input {k} refers to missing rows")
         if len(np.asarray(inds)) != len(m.externals[k]): P.append(f"externals[{k}] and external_inds[{k}] differ in length")
@@ -140,6 +184,11 @@ def table_problems(m):
         if np.any(a >= max(n, len(m.edges))): P.append("trainable refers to missing rows")
     if len(m.trainable_params) != len(m.indices_set_by_trainables): P.append("trainable_params and indices differ in length")
     return P
+
+
+def _is_edge_state(m, st):
+    names = [s_._name for s_ in m.synapses]
+    return st in getattr(m, "synapse_state_names", []) or (st.startswith("i_") and st[2:] in names) or any(st in s_.synapse_states for s_ in m.synapses)
 
 
 def snapshot_tables(m):
@@ -187,12 +236,19 @@ def rebuild(m, kind):
             val = nodes.loc[i, col]
             if isinstance(val, float) and np.isnan(val): continue
             r.select(nodes=[int(i)]).set(col, float(val))
+    from jaxley.connect import connect
+    for i in list(m.edges.index)[len(r.edges):]:          # synapses added by connect(): same order, same ends, same type
+        pre, post = int(m.edges.loc[i, "pre_global_comp_index"]), int(m.edges.loc[i, "post_global_comp_index"])
+        connect(r.select(nodes=[pre]), r.select(nodes=[post]), synapse(str(m.edges.loc[i, "type"])))
     for col in m.edges.columns:
-        if col in r.edges.columns and col not in ("global_edge_index", "pre_global_comp_index", "post_global_comp_index", "type", "type_ind", "pre_locs", "post_locs", "controlled_by_param"):
+        if col in r.edges.columns and col not in ("global_edge_index", "pre_global_comp_index", "post_global_comp_index", "type", "type_ind", "pre_locs", "post_locs", "controlled_by_param") \
+                and not col.startswith(("pre_", "post_", "global_", "local_")):
             for i in m.edges.index:
-                r.select(edges=[int(i)]).set(col, float(m.edges.loc[i, col]))
+                val = m.edges.loc[i, col]
+                if isinstance(val, float) and np.isnan(val): continue
+                r.select(edges=[int(i)]).set(col, float(val))
     for st, idx in zip(m.recordings.state, m.recordings.rec_index):
-        r.select(nodes=[int(idx)]).record(st, verbose=False)
+        (r.select(edges=[int(idx)]) if _is_edge_state(m, st) else r.select(nodes=[int(idx)])).record(st, verbose=False)
     for k in m.externals:
         for row, idx in zip(np.asarray(m.externals[k]), np.asarray(m.external_inds[k])):
             if k == "i": r.select(nodes=[int(idx)]).stimulate(jnp.asarray(row), verbose=False)
@@ -273,7 +329,9 @@ def run_instance(inst):
             for p, ind in zip(m.trainable_params, m.indices_set_by_trainables):
                 key = list(p.keys())[0]
                 ind = np.asarray(ind)
-                if ind.shape[0] == 1 and key in r.nodes.columns:
+                if key in r.edges.columns and key not in r.nodes.columns:
+                    for row in ind: r.select(edges=[int(i) for i in row if i >= 0]).make_trainable(key, verbose=False)
+                elif ind.shape[0] == 1 and key in r.nodes.columns:
                     r.select(nodes=[int(i) for i in ind[0] if i >= 0]).make_trainable(key, verbose=False)
                 elif key in r.nodes.columns:
                     for row in ind: r.select(nodes=[int(i) for i in row if i >= 0]).make_trainable(key, verbose=False)
@@ -354,11 +412,29 @@ def families():
                 if any(o[0] == pair[0][0] and (o[0] != "insert" or o[2] == pair[0][2]) for o in pre):
                     continue
                 insts.append({"module": kind, "history": [list(o) for o in pre], "undo": [list(pair[0]), list(pair[1])]})
+    # histories with connect() and synapse-level operations (network only): interleaved synapse types arise from
+    # connect sequences on top of the TanhRateSynapse created at construction
+    E = EDGE_OPS
+    conn = [o for o in E if o[0] == "connect"]; eops = [o for o in E if o[0] != "connect"]
+    node_ops = [("insert", "all", "HH"), ("set_ncomp", "b0", 3), ("stimulate", "b2c1", None), ("clamp", "b2c1", None), ("make_trainable", "b0", "radius"), ("record", "b0", "v"),
+                ("delete_recordings", "all", None), ("delete_trainables", "all", None), ("init_states", "all", None), ("add_to_group", "b0", "g1")]
+    eh = [[o] for o in E]
+    eh += [[a, b] for a in conn for b in eops] + [[a, b] for a in conn for b in conn if a != b]
+    eh += [[a, b, c] for a in conn[:2] for b in conn[1:] if a != b for c in eops]
+    eh += [[a, b] for a in conn[:2] for b in node_ops] + [[b, a] for a in conn[:2] for b in node_ops[:6]]
+    eh += [[conn[0], e, n_] for e in eops[:2] for n_ in (("delete_recordings", "all", None), ("set_ncomp", "b0", 3), ("insert", "all", "HH"))]
+    eh += [[conn[0], ("make_trainable_syn", "last", None), conn[1]], [conn[1], ("record_syn", "last", "i"), conn[0], ("record_syn", "last", "state")],
+           [("make_trainable", "b0", "radius"), conn[0], ("make_trainable_syn", "last", None), ("delete_trainables", "all", None)]]
+    if quick:
+        eh = eh[::2]
+    for h in eh:
+        insts.append({"module": "network", "history": [list(o) for o in h]})
     # VERIF_SEED-driven longer random histories
     rng = np.random.default_rng(harness.seed() + 99)
     for _ in range(20 if quick else 120):
         k = int(rng.integers(3, 6))
-        h = [ops[int(i)] for i in rng.integers(0, len(ops), size=k)]
+        pool = ops + EDGE_OPS
+        h = [pool[int(i)] for i in rng.integers(0, len(pool), size=k)]
         insts.append({"module": "cell" if rng.random() < 0.7 else "network", "history": [list(o) for o in h]})
     return insts
 
@@ -375,10 +451,10 @@ def main():
         "explanation": "program pairs: integrate on the edited module vs integrate on a module rebuilt from the edited module's public tables; integrate after history+op+inverse vs after history; "
                        "compared node by node for all symbolic stimulus samples and trainables. Histories are enumerated; table-consistency predicates are concrete side-checks.",
         "evaluations": len(insts), "distinct_nontrivial": c.get("history_accepted", 0),
-        "rule": "histories over a 27-operation alphabet x 3 views on an irregular 3-branch cell and a 2-cell network: all of length 1, pairs (quick: those starting with a creating operation), sampled triples and "
+        "rule": "histories over a 31-operation node alphabet x 3 views plus 9 synapse-level operations (connect of three types on three (pre, post) pairs, record / set / make_trainable on the first / last synapse) on an irregular 3-branch cell and a 2-cell network: all of length 1, pairs (quick: those starting with a creating operation), sampled triples and "
                 "seeded random histories of length 3-5; undo pairs after 5 prefixes; non-trivial = accepted by the module (no exception)",
         "bounds": {"history length": "<= 2 exhaustive (quick, filtered) / <= 3 sampled (thorough) / 3-5 random", "steps": NSTEPS},
-        "outside": ["connect as an editing operation (the network's synapse is created at construction)", "set_ncomp inside histories (C13)", "table predicates are not solver-decided"],
+        "outside": ["connect between arbitrary compartments (three fixed (pre, post) pairs are used)", "table predicates are not solver-decided"],
     }
     return rep.finish(cov, assumptions=["exact real arithmetic", "a module rebuilt through constructors + insert + set + record + stimulate + clamp from the displayed tables is the reference for 'the model displayed by the tables'"])
 
